@@ -1,5 +1,7 @@
 import MosdnsVerif.Lemmas.C20Inv
 import MosdnsVerif.Model.C20Pool
+import MosdnsVerif.Model.C20Time
+import MosdnsVerif.Refine.C20
 import MosdnsVerif.Gen.Facts
 
 /-!
@@ -177,6 +179,225 @@ theorem release_without_drain_is_wrong :
   ⟨rfl, _, rfl, rfl, rfl⟩
 
 end Pool
+
+/-! ### "Within the threshold" means within the CONFIGURED threshold
+
+The theorems above leave the moment of `timerFire` to the environment. Here the
+steps carry times. The timer is created with `Gen.fallbackThreshold ms` - the
+T1 translation of `newFallbackPlugin` applied to the configured `threshold: ms` -
+and cannot fire earlier than that after the start of the call (`admissible`).
+By `Refine.C20.configured_threshold_honoured` that duration is `ms` itself for
+every positive `ms`, so nothing that needs the timer happens before `ms`. -/
+section Time
+
+theorem timer_step (c : Cfg) (s s' : St) (l : Label) (hs : step c s l = some s') (hl : l ≠ .timerFire) :
+    s'.timer = s.timer := by
+  cases l <;> simp only [step, primOp, sendSec] at hs
+  all_goals first
+    | contradiction
+    | (repeat' split at hs) <;> first
+        | contradiction
+        | (injection hs with hs; subst hs; rfl)
+
+theorem secCtx_step (c : Cfg) (s s' : St) (l : Label) (hs : step c s l = some s') (hl : l ≠ .secCtxFire) :
+    s'.secCtx = s.secCtx := by
+  cases l <;> simp only [step, primOp, sendSec] at hs
+  all_goals first
+    | contradiction
+    | (repeat' split at hs) <;> first
+        | contradiction
+        | (injection hs with hs; subst hs; rfl)
+
+/-- the timer has fired only if the schedule contains its firing -/
+theorem timer_run (c : Cfg) (ls : List Label) : ∀ s s', run c s ls = some s' → s'.timer = true →
+    s.timer = true ∨ Label.timerFire ∈ ls := by
+  induction ls with
+  | nil => intro s s' hr ht; simp [run] at hr; subst hr; exact Or.inl ht
+  | cons l ls ih =>
+    intro s s' hr ht
+    simp only [run] at hr
+    cases hs : step c s l with
+    | none => rw [hs] at hr; cases hr
+    | some s1 =>
+      rw [hs] at hr
+      rcases ih s1 s' hr ht with h | h
+      · by_cases hl : l = .timerFire
+        · exact Or.inr (by simp [hl])
+        · exact Or.inl (by rw [← timer_step c s s1 l hs hl]; exact h)
+      · exact Or.inr (List.mem_cons_of_mem _ h)
+
+theorem secCtx_run (c : Cfg) (ls : List Label) : ∀ s s', run c s ls = some s' → s'.secCtx = true →
+    s.secCtx = true ∨ Label.secCtxFire ∈ ls := by
+  induction ls with
+  | nil => intro s s' hr ht; simp [run] at hr; subst hr; exact Or.inl ht
+  | cons l ls ih =>
+    intro s s' hr ht
+    simp only [run] at hr
+    cases hs : step c s l with
+    | none => rw [hs] at hr; cases hr
+    | some s1 =>
+      rw [hs] at hr
+      rcases ih s1 s' hr ht with h | h
+      · by_cases hl : l = .secCtxFire
+        · exact Or.inr (by simp [hl])
+        · exact Or.inl (by rw [← secCtx_step c s s1 l hs hl]; exact h)
+      · exact Or.inr (List.mem_cons_of_mem _ h)
+
+/-- nothing the timer does happens before the duration it was created with -/
+theorem no_fire_before (th : Int) (tls : List TLabel) (hadm : admissible th tls = true)
+    (hin : ∀ e ∈ tls, e.1 < th) : Label.timerFire ∉ labelsOf tls := by
+  intro hm
+  simp only [labelsOf, List.mem_map] at hm
+  obtain ⟨e, he, hl⟩ := hm
+  have h1 := hin e he
+  simp only [admissible, List.all_eq_true] at hadm
+  have h2 := hadm e he
+  simp [hl] at h2
+  omega
+
+/-- with a primary that answers, the ghost `sqExcuse` means: the timer had fired or the
+secondary's own deadline had passed -/
+def exc (s : St) : Prop := s.sqExcuse = true → s.timer = true ∨ s.secCtx = true
+
+theorem exc_step (c : Cfg) (hp : c.pAns = true) (s s' : St) (l : Label) (hs : step c s l = some s')
+    (he : exc s) : exc s' := by
+  unfold exc at *
+  cases l <;> simp only [step, primOp, sendSec, primFailed, hp] at hs
+  all_goals first
+    | contradiction
+    | (repeat' split at hs) <;> first
+        | contradiction
+        | (injection hs with hs; subst hs; simp_all)
+
+theorem exc_run (c : Cfg) (hp : c.pAns = true) (ls : List Label) : ∀ s s', exc s → run c s ls = some s' → exc s' := by
+  induction ls with
+  | nil => intro s s' he hr; simp [run] at hr; subst hr; exact he
+  | cons l ls ih =>
+    intro s s' he hr
+    simp only [run] at hr
+    cases hs : step c s l with
+    | none => rw [hs] at hr; cases hr
+    | some s1 => rw [hs] at hr; exact ih s1 s' (exc_step c hp s s1 l hs he) hr
+
+/-- the primary's answer is queued, and it was queued first -/
+def pq (c : Cfg) (s : St) : Prop := pSent c s = true ∧ s.pFirst = true
+
+theorem pq_step (c : Cfg) (s s' : St) (l : Label) (hs : step c s l = some s') (h : pq c s) : pq c s' := by
+  unfold pq at *
+  obtain ⟨h1, h2⟩ := h
+  cases l <;> simp only [step, primOp, sendSec] at hs
+  all_goals first
+    | contradiction
+    | (repeat' split at hs) <;> first
+        | contradiction
+        | (injection hs with hs; subst hs; simp_all [pSent] <;> decide)
+
+theorem pq_run (c : Cfg) (ls : List Label) : ∀ s s', pq c s → run c s ls = some s' → pq c s' := by
+  induction ls with
+  | nil => intro s s' he hr; simp [run] at hr; subst hr; exact he
+  | cons l ls ih =>
+    intro s s' he hr
+    simp only [run] at hr
+    cases hs : step c s l with
+    | none => rw [hs] at hr; cases hr
+    | some s1 => rw [hs] at hr; exact ih s1 s' (pq_step c s s1 l hs he) hr
+
+/-- **The primary's answer wins whenever it is produced within the configured
+threshold.** Configured `threshold: ms` (any positive number of milliseconds);
+`pre` is what happens before `ms` have passed since the start of the call, in
+any interleaving, the timer obeying the duration the plugin was built with
+(`Gen.fallbackThreshold ms`) and the secondary's own deadline not yet over. If
+by then the primary's answer is queued, then whatever happens afterwards
+(`post`: the timer fires, the standby secondary is released, contexts end, the
+caller polls) the caller's result is never the secondary's answer. -/
+theorem primary_in_time_wins (c : Cfg) (hsf : c.sendFirst = true) (hp : c.pAns = true)
+    (ms : Int) (hms : 0 < ms) (pre post : List TLabel) (s1 s2 : St)
+    (hadm : admissible (Gen.fallbackThreshold ms) pre = true)
+    (hin : ∀ e ∈ pre, e.1 < ms * 1000000)
+    (hsc : Label.secCtxFire ∉ labelsOf pre)
+    (h1 : run c init (labelsOf pre) = some s1) (hq : pSent c s1 = true)
+    (h2 : run c s1 (labelsOf post) = some s2) : s2.result ≠ .sec := by
+  rw [Refine.C20.configured_threshold_honoured ms hms] at hadm
+  have hnf := no_fire_before _ pre hadm hin
+  have ht : s1.timer = false := by
+    cases h : s1.timer with
+    | false => rfl
+    | true =>
+      rcases timer_run c _ init s1 h1 h with h' | h'
+      · cases h'
+      · exact absurd h' hnf
+  have hc : s1.secCtx = false := by
+    cases h : s1.secCtx with
+    | false => rfl
+    | true =>
+      rcases secCtx_run c _ init s1 h1 h with h' | h'
+      · cases h'
+      · exact absurd h' hsc
+  have he : s1.sqExcuse = false := by
+    cases h : s1.sqExcuse with
+    | false => rfl
+    | true =>
+      have := exc_run c hp _ init s1 (by intro h0; cases h0) h1 h
+      simp [ht, hc] at this
+  have hi1 := inv_run c hsf _ init s1 (inv_init c) h1
+  have hi2 := inv_run c hsf _ s1 s2 hi1 h2
+  intro hres
+  simp only [inv, Bool.and_eq_true] at hi1 hi2
+  obtain ⟨⟨⟨⟨⟨⟨⟨⟨⟨⟨_, a2⟩, a3⟩, _⟩, _⟩, _⟩, _⟩, _⟩, _⟩, _⟩, _⟩ := hi1
+  obtain ⟨⟨⟨⟨⟨⟨⟨⟨⟨⟨_, _⟩, _⟩, _⟩, _⟩, _⟩, _⟩, b8⟩, _⟩, _⟩, _⟩ := hi2
+  cases hf : s1.pFirst with
+  | true =>
+    have := pq_run c _ s1 s2 ⟨hq, hf⟩ h2
+    simp [hres, hp, this.1, this.2] at b8
+  | false =>
+    simp [hq, hf] at a3
+    simp [a3, he, hf] at a2
+    simp [hres, a2] at b8
+
+/-- **Without always_standby the secondary is not even started while the primary
+is within the configured threshold**: before `ms` have passed, with a primary
+that has not failed, `secondary.Exec` has not been invoked. -/
+theorem secondary_not_started_within_threshold (c : Cfg) (hsf : c.sendFirst = true) (hp : c.pAns = true)
+    (hsb : c.standby = false) (ms : Int) (hms : 0 < ms) (pre : List TLabel) (s : St)
+    (hadm : admissible (Gen.fallbackThreshold ms) pre = true)
+    (hin : ∀ e ∈ pre, e.1 < ms * 1000000)
+    (h1 : run c init (labelsOf pre) = some s) : secStarted s = false := by
+  rw [Refine.C20.configured_threshold_honoured ms hms] at hadm
+  have hnf := no_fire_before _ pre hadm hin
+  have ht : s.timer = false := by
+    cases h : s.timer with
+    | false => rfl
+    | true =>
+      rcases timer_run c _ init s h1 h with h' | h'
+      · cases h'
+      · exact absurd h' hnf
+  have hi := inv_run c hsf _ init s (inv_init c) h1
+  simp only [inv, Bool.and_eq_true] at hi
+  obtain ⟨⟨⟨⟨⟨⟨⟨⟨⟨⟨a1, _⟩, _⟩, _⟩, _⟩, _⟩, _⟩, _⟩, _⟩, _⟩, _⟩ := hi
+  simpa [hsb, ht, primFailed, hp] using a1
+
+/-- The admissibility hypothesis is what carries the configured value: a plugin
+that is configured with 8000 ms but built with 500 ms (a "sanitised" threshold)
+starts the secondary and returns its answer 500 ms into the call, long before
+the 8000 ms are over. -/
+theorem replaced_threshold_is_wrong :
+    let pre : List TLabel := [(500000000, .timerFire), (500000000, .sPickTimer), (500000000, .sFinish),
+      (500000000, .sSend), (500000000, .mRecv)]
+    admissible (500 * 1000000) pre = true ∧ (∀ e ∈ pre, e.1 < 8000 * 1000000) ∧
+    ∃ s, run ⟨true, true, false, true⟩ init (labelsOf pre) = some s ∧ s.result = .sec ∧ secStarted s = true := by
+  refine ⟨by decide, by decide, _, rfl, rfl, rfl⟩
+
+/-- non-vacuity of `primary_in_time_wins`: configured 8000 ms, a finished standby secondary, the primary's
+answer queued 900 ms into the call; afterwards the timer fires and the secondary is released, the caller polls -/
+example :
+    let c : Cfg := ⟨true, true, true, true⟩
+    let pre : List TLabel := [(0, .sStart), (0, .sFinish), (900000000, .pFinish), (900000000, .pOp)]
+    let post : List TLabel := [(900000000, .pOp), (8000000000, .timerFire), (8000000000, .sWaitTimer), (8000000000, .mRecv)]
+    admissible (Gen.fallbackThreshold 8000) pre = true ∧ (∀ e ∈ pre, e.1 < 8000 * 1000000) ∧
+    Label.secCtxFire ∉ labelsOf pre ∧ (run c init (labelsOf pre)).map (pSent c) = some true ∧
+    (run c init (labelsOf (pre ++ post))).map (·.result) = some .prim := by decide
+
+end Time
 
 /-! ### Guards over the regenerated facts -/
 theorem facts_guard :
